@@ -193,9 +193,18 @@ pub fn main(args: &util::Args) {
         for f in files {
             let Ok(src) = std::fs::read_to_string(&f) else { continue };
             let id = format!("corpus:{}/{}", sub, f.file_name().unwrap().to_string_lossy());
+            // `<name>.gom.out`: the output the SOURCE denotes, written down by hand with the witness
+            let expected = std::fs::read_to_string(format!("{}.out", f.display())).ok();
             match util::compile_text(&dir, &src) {
                 Outcome::Ok(c) => {
-                    writeln!(out, "{}\tEXPECT\tnone\t", id).unwrap();
+                    writeln!(
+                        out,
+                        "{}\tEXPECT\t{}\t{}",
+                        id,
+                        if expected.is_some() { "out" } else { "none" },
+                        crate::sexp::esc_line(expected.as_deref().unwrap_or(""))
+                    )
+                    .unwrap();
                     writeln!(out, "{}\tSRC\t{}", id, crate::sexp::esc_line(&src)).unwrap();
                     dump_case(&id, &c, &mut out);
                 }
